@@ -5,6 +5,6 @@ C(v, dp, ip, ix) == [ver |-> v, dpad |-> dp, ipad |-> ip, idx |-> ix, full |-> F
 StdConts == { C(1, 0, 0, "none"), C(2, 0, 0, "mh"), C(2, 1, 7, "sorted"), C(2, 1413, 0, "none") }
 
 QuickIds   == {"b1", "b3", "b5", "b10", "b12", "b13", "b14", "b19"}
-QuickRoots == { <<>>, <<"b1">>, <<"b3", "b4">> }
+QuickRoots == { <<>>, <<"b1">>, <<"b3", "b4">>, <<"b10">>, <<"b22">> }   \* b10/b22: roots whose CBOR byte-string head is 1 / 3 bytes
 ThorIds    == {"b1", "b3", "b5", "b6", "b8", "b9", "b10", "b12", "b13", "b14", "b15", "b16", "b19"}
 =============================================================================
